@@ -58,6 +58,12 @@ signvecs = z3.Function('signvecs', Int, CSeq)     # itertools.product([1,-1], re
 sprod = z3.Function('sprod', ISeq, Int)           # product of the entries
 smul = z3.Function('smul', ISeq, ISeq, ISeq)      # [l*s for l,s in zip(lits, signs)]
 pfilter = z3.Function('pfilter', ISeq, Int, Int, CSeq)  # [smul(l,s) for s in signvecs(len l)[:t] if sprod(s)==d]
+isperm = z3.Function('isperm', z3.ArraySort(Int, Int), Int, Int, Bool)      # A[0..n) is a permutation of base..base+n-1
+sortedperm = z3.Function('sortedperm', z3.ArraySort(Int, Int), z3.ArraySort(Int, Int), Int, Bool)  # T[0..n) = sorted(A[0..n))
+invperm = z3.Function('invperm', z3.ArraySort(Int, Int), Int, z3.ArraySort(Int, Int))   # inverse of a permutation of 0..n-1
+imapsub = z3.Function('imapsub', ISeq, z3.ArraySort(Int, Int), Int, ISeq)    # [A[l] for l in s] with python indexing into a list of length n
+zpos = z3.Function('zpos', ISeq, Int)              # a position of a zero literal, if any
+mpos = z3.Function('mpos', ISeq, Int)              # a position of a literal of maximal absolute value (non-empty list)
 PairSet = z3.ArraySort(Int, Int, Bool)
 card2 = z3.Function('card2', PairSet, Int)           # cardinality of a finite set of pairs
 IArr = z3.ArraySort(Int, Int)
@@ -104,7 +110,7 @@ FUNCS = dict(tlen=tlen, tcoef=tcoef, tlit=tlit, tunit=tunit, tnegc=tnegc, tset=t
              ilen=ilen, iget=iget, inil=inil, isnoc=isnoc, iapp=iapp, ineg=ineg, haszero=haszero,
              maxof=maxof, minof=minof, maxabs=maxabs, lit_true=lit_true, count=count, ctrue=ctrue,
              clen=clen, cget=cget, cnil=cnil, csnoc=csnoc, capp=capp, ctake=ctake, combs=combs, sat=sat,
-             cmaxabs=cmaxabs, pow2=pow2, chaszero=chaszero, psum=psum, card2=card2, rnbrs=rnbrs, apseq=apseq, negunits=negunits, signvecs=signvecs, sprod=sprod, smul=smul, pfilter=pfilter)
+             cmaxabs=cmaxabs, pow2=pow2, chaszero=chaszero, psum=psum, card2=card2, isperm=isperm, sortedperm=sortedperm, invperm=invperm, imapsub=imapsub, zpos=zpos, mpos=mpos, rnbrs=rnbrs, apseq=apseq, negunits=negunits, signvecs=signvecs, sprod=sprod, smul=smul, pfilter=pfilter)
 
 
 def zmax(a, b):
@@ -268,6 +274,39 @@ def _on_terms(terms_by_decl):
             ok = z3.And(n == ilen(l), 0 <= t, t < pow2(n))
             out.append(z3.Implies(ok, z3.And(maxabs(smul(l, sgn)) == maxabs(l), haszero(smul(l, sgn)) == haszero(l),
                                              ilen(smul(l, sgn)) == ilen(l))))
+    jq = z3.Int('j!perm')
+    for (A, n, base) in terms_by_decl.get('isperm', []):
+        # Perm.lean isperm_range: every entry lies in base..base+n-1
+        out.append(z3.Implies(isperm(A, n, base), z3.ForAll([jq], z3.Implies(z3.And(0 <= jq, jq < n),
+                   z3.And(base <= z3.Select(A, jq), z3.Select(A, jq) < base + n)))))
+        if base.eq(z3.IntVal(0)) or True:
+            inv = invperm(A, n)
+            # Perm.lean invperm_*: the inverse of a permutation of 0..n-1 is a permutation and inverts it
+            out.append(z3.Implies(z3.And(isperm(A, n, base), base == 0), z3.And(
+                isperm(inv, n, 0),
+                z3.ForAll([jq], z3.Implies(z3.And(0 <= jq, jq < n), z3.And(0 <= z3.Select(inv, jq), z3.Select(inv, jq) < n,
+                                                                        z3.Select(A, z3.Select(inv, jq)) == jq))))))
+    for (T, A, n) in terms_by_decl.get('sortedperm', []):
+        for (A2, n2, base) in terms_by_decl.get('isperm', []):
+            if A2.eq(A):
+                # Perm.lean sorted_perm_range (L13a): sorted(A) is base..base+n-1 position-wise  <=>  A is a permutation of it
+                out.append(z3.Implies(z3.And(sortedperm(T, A, n), n2 == n),
+                                      isperm(A, n, base) == z3.ForAll([jq], z3.Implies(z3.And(0 <= jq, jq < n), z3.Select(T, jq) == base + jq))))
+    for (sq, A, n) in terms_by_decl.get('imapsub', []):
+        out.append(ilen(imapsub(sq, A, n)) == ilen(sq))
+    for (sq, i) in terms_by_decl.get('iget', []):
+        out.append(z3.Implies(z3.And(0 <= i, i < ilen(sq)), zabs(iget(sq, i)) <= maxabs(sq)))          # Seq.lean iget_le_maxabs
+        out.append(z3.Implies(z3.And(0 <= i, i < ilen(sq), z3.Not(haszero(sq))), iget(sq, i) != 0))      # Seq.lean iget_ne_zero
+        if z3.is_app(sq) and sq.decl().name() == 'imapsub':
+            s0, A, n = sq.children()
+            l = iget(s0, i)
+            out.append(z3.Implies(z3.And(0 <= i, i < ilen(s0)), iget(sq, i) == z3.Select(A, z3.If(l >= 0, l, n + l))))
+    for (sq,) in terms_by_decl.get('haszero', []):
+        # witness of a zero literal (Seq.lean haszero_witness)
+        out.append(z3.Implies(haszero(sq), z3.And(0 <= zpos(sq), zpos(sq) < ilen(sq), iget(sq, zpos(sq)) == 0)))
+    for (sq,) in terms_by_decl.get('maxabs', []):
+        out.append(z3.Implies(ilen(sq) > 0, z3.And(0 <= mpos(sq), mpos(sq) < ilen(sq), zabs(iget(sq, mpos(sq))) == maxabs(sq))))
+        out.append(z3.Implies(ilen(sq) == 0, maxabs(sq) == 0))
     for (st,) in terms_by_decl.get('card2', []):
         out.append(card2(st) >= 0)
         if z3.is_app(st) and st.decl().kind() == z3.Z3_OP_STORE:
@@ -453,7 +492,7 @@ def _has_bound(e):
     return False
 
 
-def instances(exprs, rounds=2):
+def instances(exprs, rounds=3):
     """ground lemma instances for the VC made of `exprs` (hypotheses + goal)"""
     out = []
     seen = set()
